@@ -29,7 +29,7 @@ func RetrieveSupportedCipherSuites(ctx context.Context, s *V2SessionlessTranspor
 			return nil, err
 		}
 		cipherSuiteRecordData.Write(getChannelCipherSuitesCmd.Rsp.CipherSuiteRecordsChunk)
-		if getChannelCipherSuitesCmd.Req.ListIndex == 64 ||
+		if getChannelCipherSuitesCmd.Req.ListIndex == 63 || // the last of the 64 indices the field can hold
 			len(getChannelCipherSuitesCmd.Rsp.CipherSuiteRecordsChunk) < 16 {
 			break
 		}
